@@ -148,6 +148,12 @@ _gen_u = gen
 
 def gen(rng, n, tier):  # noqa: F811
     out = _gen_u(rng, n // 2, tier)
+    # gridded emissions files usually carry nz = 0 in the grid header (one implicit layer): python-judged stream
+    for case in out:
+        c = case['content']
+        if c['name'] == 'EMISSIONS' and rng.random() < 0.5:
+            c['nz_header'] = 0
+            case['kind'] = 'uamiv-EMISSIONS-nz0'
     for i in range(n - len(out)):
         c = M.gen_met(rng, tier=tier, rollover=0.3)
         out.append(dict(kind='met-' + c['fmt'], content=c, write=False, read=True))
@@ -167,7 +173,7 @@ _coq_u = coq_term
 
 
 def coq_term(case, obs):  # noqa: F811
-    if case['kind'].startswith('met-'):
+    if case['kind'].startswith('met-') or case['kind'] == 'uamiv-EMISSIONS-nz0':
         return None
     return _coq_u(case, obs)
 
@@ -181,6 +187,22 @@ _py_u = py_check
 
 
 def py_check(case, obs):  # noqa: F811
+    if case['kind'] == 'uamiv-EMISSIONS-nz0':
+        if 'raises' in obs:
+            return dict(s_ok=False, why='harness/impl raised ' + str(obs))
+        why = []
+        if obs.get('rd_timeout'):
+            why.append('record reader did not terminate')
+        if obs.get('mm_ok') and obs.get('rd_ok'):
+            a, b = obs['mm'], obs['rd']
+            for dname in ('TSTEP', 'LAY', 'ROW', 'COL'):
+                if a['dims'].get(dname) != b['dims'].get(dname):
+                    why.append('dimension %s: Memmap %s, Read %s' % (dname, a['dims'].get(dname), b['dims'].get(dname)))
+            for v in a['data']:
+                if v in b['data'] and MC.squeeze(a['data'][v]) != MC.squeeze(b['data'][v]):
+                    why.append('data of %s differ between the readers' % v)
+        d0, d1 = case['content']['steps'][0]['bdate'], case['content']['steps'][-1]['edate']
+        return dict(s_ok=not why, region=1 if d1 < d0 else 0, why='; '.join(why[:3]))
     if not case['kind'].startswith('met-'):
         return _py_u(case, obs)
     if 'raises' in obs:
